@@ -20,6 +20,7 @@ Y_PKGS = "./lib/j5schema,./lib/j5reflect,./internal/codec,./lib/j5codec,./j5type
 PROPS = {
     "C14": dict(
         harness="sim/c14", cmd="zzverif_c14", race=False, history_check=True, crash_is_violation=True, crash_needs_phase="REPLAY-PHASE reference-ok",
+        race_workers=(4, 10),  # these two workers run a -race build of the same harness (GOMAXPROCS 4): goroutines the compile path may start must not race
         rewrite=["-m", M_PKGS],
         extra_pkgs=[("sim/j5sgen", "internal/zzverif/j5sgen")],
         tiers={
@@ -166,6 +167,11 @@ def build_scratch(prop, verbose=True, mutate=None):
     r = run(cmd, cwd=tree, env=goenv(), capture_output=True, text=True)
     if r.returncode != 0:
         trouble("build of the instrumented copy failed:\n" + r.stdout[-6000:] + r.stderr[-6000:])
+    if cfg.get("race_workers") and not cfg["race"]:
+        rcmd = [GO, "build", "-trimpath", "-tags", "verif", "-race", "-o", binary + ".race", "./cmd/" + cfg["cmd"]]
+        r = run(rcmd, cwd=tree, env=goenv(), capture_output=True, text=True)
+        if r.returncode != 0:
+            trouble("race build of the instrumented copy failed:\n" + r.stdout[-6000:] + r.stderr[-6000:])
     return binary, report, d, time.time() - t0
 
 def merge(a, b):
@@ -213,7 +219,12 @@ def spawn_workers(binary, prop, tier, seed, nworkers, budget, extra_args, outdir
         env = goenv({"GOMAXPROCS": str([1, 4, 16][w % 3])})
         if per_worker_env:
             env.update(per_worker_env(w))
-        cmd = [binary, "-mode", "worker", "-seed", str(seed), "-worker", str(w), "-workers", str(nworkers),
+        wbin = binary
+        if w in (PROPS[prop].get("race_workers") or ()) and os.path.exists(binary + ".race"):
+            wbin = binary + ".race"
+            env["GORACE"] = "log_path=%s halt_on_error=0 exitcode=0 history_size=2" % os.path.join(outdir, "race.w%d" % w)
+            env["GOMAXPROCS"] = "4"
+        cmd = [wbin, "-mode", "worker", "-seed", str(seed), "-worker", str(w), "-workers", str(nworkers),
                "-budget", str(budget), "-out", out] + extra_args
         errf = open(os.path.join(outdir, "w%d.stderr" % w), "w")
         procs.append((w, subprocess.Popen(cmd, env=env, stdout=subprocess.DEVNULL, stderr=errf, cwd=outdir), out, errf))
@@ -293,6 +304,7 @@ def _refdigest(binary, seed, gen, order, outdir, tag, env_tag=None):
     r = run([binary, "-mode", "refdigest", "-seed", str(seed), "-gen", gen, "-indices", ",".join(map(str, order)), "-out", out],
             env=env, capture_output=True, text=True, cwd=cwd)
     if r.returncode != 0 or not os.path.exists(out):
+        _refdigest.last_stderr = r.stderr[-4000:]
         return None
     return json.load(open(out)).get("ref_digests") or {}
 
@@ -324,6 +336,17 @@ def history_check(binary, seed, tier, tcfg, results, outdir):
     for tag, order in orders.items():
         d = _refdigest(binary, seed, gen, order, outdir, tag, env_tag=tag)
         if d is None:
+            err = getattr(_refdigest, "last_stderr", "")
+            if "fatal error: concurrent map" in err:
+                # the Go runtime caught two goroutines of the code under test in one map while this process
+                # compiled the sample: the process under test crashed. Replay = the same list of programs,
+                # repeated (the crash needs a physical overlap).
+                first = [l for l in err.splitlines() if l.startswith("fatal error:")][:1]
+                return [dict(property="C14", master_seed=seed, program_index=order[-1], exec_index=-1, program=None, minimised=False,
+                             finding_key="process_crash",
+                             violation=dict(**{"class": "process_crash"}, form="", op_index=-1, op="",
+                                            detail="a process compiling programs %s one after the other died: %s\n%s" % (order, first[0] if first else "fatal error", err[-2500:])),
+                             history_case=dict(index=order[-1], order=order, gen=gen, fresh_digest="", history_digest="", crash=True))], dict(compared=0, crashed=True)
             trouble("history check: refdigest process failed")
         for pos, i in enumerate(order):
             seen[i].append((d.get(str(i)), "process compiling the sample in %s order (environment %s)" % (tag, tag), order[:pos + 1], tag))
@@ -493,6 +516,27 @@ def check(prop, tier):
                 env = goenv({"GORACE": "log_path=%s halt_on_error=0 exitcode=0 history_size=4" % os.path.join(outdir, "race.crashreplay")})
                 r = run([binary, "-mode", "replay", "-file", path], env=env, capture_output=True, text=True, cwd=outdir)
                 need = cfg.get("crash_needs_phase")
+                if r.returncode in (0, 1) and "fatal error: concurrent map" in tail:
+                    # The Go runtime itself caught two goroutines of the code under test in one map: that
+                    # only happens when they physically overlap, so one replay proves little. Repeat the
+                    # run (the replay file fixes everything but the Go scheduler) up to 48 times, 16 at a time.
+                    hits = 0
+                    for batch in range(3):
+                        ps = [subprocess.Popen([binary, "-mode", "replay", "-file", path], env=dict(env, GOMAXPROCS="16"), stdout=subprocess.PIPE, stderr=subprocess.PIPE, text=True, cwd=outdir) for _ in range(16)]
+                        for pp in ps:
+                            try:
+                                so, se = pp.communicate(timeout=300)
+                            except subprocess.TimeoutExpired:
+                                pp.kill()
+                                continue
+                            if pp.returncode not in (0, 1) and "fatal error:" in se and (not need or need in so):
+                                hits += 1
+                                r = subprocess.CompletedProcess(pp.args, pp.returncode, so, se)
+                        if hits:
+                            break
+                    if hits:
+                        v["violation"]["detail"] += "\n(the crash needs two goroutines of the code under test to overlap physically: reproduced in %d of %d repetitions of this run)" % (hits, 16 * (batch + 1))
+                        json.dump(v, open(path, "w"), indent=1)
                 if need and need not in r.stdout:
                     # the crash also happens in the reference execution: not schedule/order dependent, so
                     # not this property's business; the worker's death stays machinery trouble
@@ -580,7 +624,12 @@ def check(prop, tier):
         env = goenv()
         if cfg["race"]:
             env["GORACE"] = "log_path=%s halt_on_error=0 exitcode=0 history_size=4" % os.path.join(outdir, "race.replay")
-        r = run([binary, "-mode", "replay", "-file", path], env=env, capture_output=True, text=True, cwd=outdir)
+        rbin = binary
+        if not cfg["race"] and (v.get("violation") or {}).get("class") == "data_race" and os.path.exists(binary + ".race"):
+            rbin = binary + ".race"
+            env["GORACE"] = "log_path=%s halt_on_error=0 exitcode=0 history_size=4" % os.path.join(outdir, "race.replay")
+            env["GOMAXPROCS"] = "4"
+        r = run([rbin, "-mode", "replay", "-file", path], env=env, capture_output=True, text=True, cwd=outdir)
         if r.returncode != 1 and v.get("native_fallback"):
             # observed by a worker under real goroutine scheduling (native fallback): the observation itself
             # (race report / wrong result / goroutines blocked for 15 s) is the evidence; replay is statistical
@@ -667,6 +716,10 @@ def replay(path):
     os.makedirs(outdir)
     if PROPS[prop]["race"]:
         env["GORACE"] = "log_path=%s halt_on_error=0 exitcode=0 history_size=4" % os.path.join(outdir, "race.replay")
+    elif (v.get("violation") or {}).get("class") == "data_race" and os.path.exists(binary + ".race"):
+        binary = binary + ".race"
+        env["GORACE"] = "log_path=%s halt_on_error=0 exitcode=0 history_size=4" % os.path.join(outdir, "race.replay")
+        env["GOMAXPROCS"] = "4"
     r = run([binary, "-mode", "replay", "-file", os.path.abspath(path)], env=env, capture_output=True, text=True, cwd=outdir)
     sys.stdout.write(r.stdout)
     sys.stderr.write(r.stderr[-3000:])
@@ -700,7 +753,8 @@ COMPONENTS = {
     "C14": dict(real_instrumented=["internal/j5s/protobuild", "internal/j5s/j5convert", "internal/j5s/sourcewalk", "internal/j5s/j5parse", "internal/j5s/protoprint", "internal/j5s/protoprint/optionreflect", "internal/bcl/**", "internal/protosrc", "lib/j5schema", "lib/j5reflect", "internal/codec",
                                    "internal/j5s/protobuild.fileReader over an in-memory fs.FS (20 % of executions)", "internal/source.imageFiles, the repository's DependencySet, its map ranges seeded (30 % of executions with dependencies)"],
                 real_uninstrumented=["github.com/bufbuild/protocompile (linker, options, parser)", "google.golang.org/protobuf", "github.com/iancoleman/strcase"],
-                simulated=["LocalFileSource (in-memory, seeded listing order, transient read errors) in the other 80 %", "DependencySet (in-memory descriptors, seeded listing order) in the other 70 %"]),
+                simulated=["LocalFileSource (in-memory, seeded listing order, transient read errors) in the other 80 %", "DependencySet (in-memory descriptors, seeded listing order) in the other 70 %"],
+                race_detector="workers 4 and 10 of 16 run a -race build of the same harness (goroutines started by the compile path)"),
     "C10": dict(real_instrumented=["lib/j5codec", "internal/codec", "lib/j5reflect", "lib/j5schema", "j5types/*"],
                 real_uninstrumented=["google.golang.org/protobuf", "encoding/json", "generated *.pb.go"],
                 simulated=["goroutine scheduler (seeded baton passing over real goroutines)"]),
